@@ -55,28 +55,44 @@ def run(F, R):
     ps = lib.one(R, "C16-R2", c, "parse_safe_json", item="parse_safe_json", kind="fn")
     if pj:
         ret = terms.render(pj, pj.trace_local(0), W, {1: "json"}, transparent=set(terms.TRANSPARENT) | {"std::ops::Try::branch"})
-        R.check("C16-R2", "wrapper", "Ok{parse_safe_json(json)@Continue.0.response}" in ret, ret[:120], "parse_json_response returns %s" % ret[:160])
+        # Ok(parse_safe_json(json)?.response)  or  parse_safe_json(json).map(|w| w.response)
+        R.check("C16-R2", "wrapper", "Ok{parse_safe_json(json)@Continue.0.response}" in ret or ret == "map(parse_safe_json(json), |$1| $1.response)", ret[:120], "parse_json_response returns %s" % ret[:160])
         call = [t for _, t in pj.calls() if lib.callee_is(t, "protocol::response::parse_safe_json")]
         tys = [lib.norm(c.types[x]["s"]) for t in call for x in t.get("substs", []) if isinstance(x, int)]
         R.check("C16-R2", "wrapper-type", tys == ["protocol::response::parse_json_response::ResponseWrapper"], str(tys), "parse_safe_json is instantiated at %s" % tys)
     if ps:
         fs = [(bi, t) for bi, t in ps.calls() if lib.callee_is(t, "serde_json::from_slice")]
-        R.check("C16-R2", "two-branches-one-parser", len(fs) == 2 and len(set(tuple(t.get("substs", [])) for _, t in fs)) == 1, "both branches call serde_json::from_slice::<T>", "parser calls: %s" % [lib.norm(t.get("callee")) for _, t in ps.calls()])
+        R.check("C16-R2", "two-branches-one-parser", len(fs) in (1, 2) and len(set(tuple(t.get("substs", [])) for _, t in fs)) == 1, "every branch parses with serde_json::from_slice::<T>", "parser calls: %s" % [lib.norm(t.get("callee")) for _, t in ps.calls()])
+        # what the parser is fed: the raw input, or the input after the prefix
+        fed = set()
+        for _, t in fs:
+            for a_ in lib.alts(ps.trace_op(t["args"][0])):
+                fed.add(terms.render(ps, a_, W, {1: "raw"}))
         sw = [(a, b, tr) for (a, b, tr) in ps.bool_edges(lambda t: t[0] == "call" and t[1].endswith("::starts_with"))]
+        sp = [t for _, t in ps.calls() if lib.norm(t.get("callee") or "").endswith("::strip_prefix")]
         pref = None
         if sw:
             tt = ps.trace_op(ps.blocks[sw[0][0]]["t"]["o"])
             pref = lib.term_const(c, terms._unref(tt[2][1]))
             recv = terms.render(ps, tt[2][0], W, {1: "raw"})
             R.check("C16-R2", "prefix-constant", pref is not None and list(pref) == table["xssi_prefix"] and recv == "raw", "prefix %r tested on the raw input" % pref, "prefix tested: %r on %s" % (pref, recv))
+            args = sorted(fed)
+            R.check("C16-R2", "parsed-slices", len(args) == 2 and args[1] == "raw" and args[0].startswith("index(raw, RangeFrom{len("), str(args), "the parser is fed %s" % args)
+            idx = [s_ for s_ in census.panic_sites(ps)]
+            from .c14 import _slice_after_prefix
+            bad = [s_ for s_ in idx if not (s_["desc"] == "api:Index::index" and _slice_after_prefix(ps, s_))]
+            R.check("C16-R2", "slice-guarded", idx and not bad, "the slice is dominated by starts_with(prefix) == true and starts at prefix.len()", "unguarded panic-capable sites in parse_safe_json: %s" % [s_["desc"] for s_ in bad])
+        elif len(sp) == 1:
+            # raw.strip_prefix(PREFIX): the remainder when the prefix is there, None otherwise (no slicing to justify)
+            pref = lib.term_const(c, terms._unref(ps.trace_op(sp[0]["args"][1])))
+            recv = terms.render(ps, ps.trace_op(sp[0]["args"][0]), W, {1: "raw"})
+            R.check("C16-R2", "prefix-constant", pref is not None and list(pref) == table["xssi_prefix"] and recv == "raw", "prefix %r stripped from the raw input" % pref, "prefix stripped: %r from %s" % (pref, recv))
+            args = sorted(fed)
+            R.check("C16-R2", "parsed-slices", len(args) == 2 and "raw" in args and any(a_.startswith("strip_prefix(raw, ") and a_.endswith("@Some.0") for a_ in args), str(args), "the parser is fed %s" % args)
+            idx = census.panic_sites(ps)
+            R.check("C16-R2", "slice-guarded", not idx, "no panic-capable site (strip_prefix spelling)", "panic-capable sites in parse_safe_json: %s" % [s_["desc"] for s_ in idx])
         else:
-            R.violation("C16-R2", "prefix-constant", "no starts_with test in parse_safe_json")
-        args = sorted(terms.render(ps, ps.trace_op(t["args"][0]), W, {1: "raw"}) for _, t in fs)
-        R.check("C16-R2", "parsed-slices", len(args) == 2 and args[1] == "raw" and args[0].startswith("index(raw, RangeFrom{len(") , str(args), "the parser is fed %s" % args)
-        idx = [s_ for s_ in census.panic_sites(ps)]
-        from .c14 import _slice_after_prefix
-        bad = [s_ for s_ in idx if not (s_["desc"] == "api:Index::index" and _slice_after_prefix(ps, s_))]
-        R.check("C16-R2", "slice-guarded", idx and not bad, "the slice is dominated by starts_with(prefix) == true and starts at prefix.len()", "unguarded panic-capable sites in parse_safe_json: %s" % [s_["desc"] for s_ in bad])
+            R.violation("C16-R2", "prefix-constant", "parse_safe_json neither tests starts_with nor strips the prefix")
 
     # ---------------------------------------------------------------- R3 recursion limit + local panic census
     R.rule("C16-R3", "serde_json's recursion limit is in force and the response module has no panic-capable site of its own")
